@@ -530,8 +530,8 @@ class Env:
         warm-up calls - must not mask the same change made by the next)"""
         self.ns["TABLE"]["tbl"] = self.Leaf(x=5, ys=[5])
         self.ns["FTABLE"]["tbl"] = self.FLeaf(x=5, ys=[5])
-        _CURRENT_TABLE.clear()
-        _CURRENT_TABLE.update(self.ns["TABLE"])
+        _FOREIGN[self.Leaf] = self.ns["TABLE"]["tbl"]
+        _FOREIGN[self.FLeaf] = self.ns["FTABLE"]["tbl"]
 
     # ---- values -------------------------------------------------------------------------------
     def mk(self, spec):
@@ -713,16 +713,16 @@ def t_pin(v):
     return _inc_value(v)
 
 
-_CURRENT_TABLE = {}
+_FOREIGN = {}  # class -> the registry object of that class in the class's own environment
 
 
 def t_foreign(v):
     """hands back an object that already exists OUTSIDE the call (a registry entry): what a transform returns is not the
     library's to edit"""
     CB.hit("transform")
-    if hasattr(v, "with_x") and "tbl" in _CURRENT_TABLE and type(_CURRENT_TABLE["tbl"]) is type(v):
-        return _CURRENT_TABLE["tbl"]
-    return _inc_value(v)
+    # (the registry entry of the value's own class: several environments - e.g. a class and its frozen twin - are alive at once)
+    entry = _FOREIGN.get(type(v))
+    return entry if entry is not None else _inc_value(v)
 
 
 TRANSFORMS = {"foreign": t_foreign, "pin": t_pin, "shallow": t_shallow, "mutret": t_mutret, "inc": t_inc, "bad": t_bad, "missing": t_missing, "raise": t_raise, "same": t_same, "ident": t_ident, "eqbad": t_eqbad}
